@@ -85,6 +85,19 @@ Definition c10_run (input : list Z) : list Z :=
           end
       | _ => ERR_DECODE
       end
+    else if kind =? 7 then
+      (* every construction route: 7 to a CoreDID (parse x4, TryFrom<BaseDIDUrl>, serde = TryFrom<BaseDIDUrl> of the deserialised third-party value, the DID of a DIDUrl), 6 to a DIDUrl (parse x4, to_url, into_url) *)
+      match take_lp r with
+      | Some (bs, []) =>
+          let s := bytes_of bs in
+          let od (x : outcome (list N * list N) did_err) := match x with Ok (m, i) => 1 :: zbytes ([100%N; 105%N; 100%N; 58%N] ++ m ++ [58%N] ++ i) | Err _ => [0] | Panic => [-777] end in
+          let ou (x : outcome did_url did_err) := match x with Ok u => 1 :: zbytes (did_url_to_string u) | Err _ => [0] | Panic => [-777] end in
+          let viaurl := match did_url_parse s with Ok u => 1 :: zbytes (u_did u) | Err _ => [0] | Panic => [-777] end in
+          let tourl := match core_did_parse s with Ok (m, i) => 1 :: zbytes ([100%N; 105%N; 100%N; 58%N] ++ m ++ [58%N] ++ i) | Err _ => [0] | Panic => [-777] end in
+          od (core_did_parse s) ++ od (core_did_parse s) ++ od (core_did_parse s) ++ od (core_did_parse s) ++ od (core_did_from_base s) ++ od (core_did_from_base s) ++ viaurl
+          ++ ou (did_url_parse s) ++ ou (did_url_parse s) ++ ou (did_url_parse s) ++ ou (did_url_parse s) ++ tourl ++ tourl
+      | _ => ERR_DECODE
+      end
     else []     (* kinds 5 (join) and 6 (Eq/Ord/Hash pairs): decided by the property oracle only *)
   | [] => ERR_DECODE
   end.
